@@ -7,10 +7,6 @@ C++ dynamic) is compared with this one.
 -/
 namespace Fcp
 
-def vlen : Val → Nat
-  | .cons _ vs => vlen vs + 1
-  | _ => 0
-
 def wfList (wf : Val → Bool) : Nat → Val → Bool
   | 0, .nil => true
   | k+1, .cons v vs => wf v && wfList wf k vs
